@@ -458,9 +458,42 @@ def monitor_tokens(toks):
     return complaints[0]
 
 
+def plan_mismatch(chk, line):
+    """Evaluate the Coq skeleton [plan] (Model/IoPollBatch.v, tied to the model's polling loop by
+    C14_repoll_follows_plan) inside coqc for each uv__io_poll segment of the harness line and compare
+    the timeouts.  Returns a complaint or None."""
+    segs = []
+    for seg in line.split("|"):
+        w = [[int(v) for v in t[1:].split(",")] for t in seg.split() if t[0] == "W"]
+        if w:
+            segs.append(w)
+    if not segs:
+        return None
+    src = os.path.join(chk.scratch.dir, "c14_plan.v")
+    with open(src, "w") as f:
+        f.write("From UV Require Import Lib.Base Model.IoPollBatch.\nLocal Open Scope Z_scope.\n")
+        for w in segs:
+            ns = "; ".join("(%d%%nat, %s)" % (x[3], "true" if x[3] > 0 else "false") for x in w)
+            f.write("Eval vm_compute in (plan 48 1024 (%d) [%s]).\n" % (w[0][0], ns))
+    r = vf.sh(["timeout", "300", "coqc", "-Q", vf.COQ, "UV", src], cwd=os.path.dirname(src))
+    if r.returncode != 0:
+        return "the model skeleton could not be evaluated: %s" % (r.stdout + (r.stderr or ""))[-300:]
+    got = [[int(v.replace("%Z", "").strip("() ")) for v in m.split(";") if v.strip()]
+           for m in re.findall(r"=\s*\[([^\]]*)\]", r.stdout.replace("\n", " "))]
+    chk.cov["fullbatch_plan_segments"] = chk.cov.get("fullbatch_plan_segments", 0) + len(segs)
+    if len(got) != len(segs):
+        return "the model skeleton printed %d results for %d segments" % (len(got), len(segs))
+    for w, g in zip(segs, got):
+        if [x[0] for x in w] != g:
+            return ("epoll_pwait timeouts %s of one uv__io_poll (events returned: %s) differ from the model's %s"
+                    % ([x[0] for x in w], [x[3] for x in w], g))
+    return None
+
+
 def fullbatch_check(chk, exe):
-    """1024 events in one epoll_pwait batch (harness/c14_fullbatch.c; the re-poll inside uv__io_poll is
-    not part of the model).  Judged on the implementation's trace alone: every epoll_pwait of the
+    """1024 events in one epoll_pwait batch (harness/c14_fullbatch.c).  The re-poll inside uv__io_poll is
+    Model/IoPollBatch.v (theorems in Properties_C14_batch.v); its skeleton [plan] is compared with the
+    timeouts the real calls were given (plan_mismatch).  In addition, on the implementation's trace: every epoll_pwait of the
     loop that may block (timeout != 0) must find watcher_queue flushed and the kernel interest set
     equal to the registry; the handle started from a callback of the full batch must be called."""
     for ring in (1, 0):
@@ -478,6 +511,12 @@ def fullbatch_check(chk, exe):
             chk.assumptions.append("full-batch scenario: no batch of 1024 events was returned")
             print("note: C14 full-batch scenario did not get a batch of 1024 events: %s" % line[:200])
             continue
+        # correspondence with Model/IoPollBatch.v: the timeouts of the epoll_pwait calls of each
+        # uv__io_poll are those of [plan 48 1024 T ns] for the numbers of events the real calls returned
+        mism = plan_mismatch(chk, line)
+        if mism:
+            chk.violation("full batch: " + mism, dict(rep, kind="correspondence",
+                          obligation="C14_repoll_follows_plan (timeouts of the re-polls)"), found_input=True)
         for t, wqe, sync, n in waits:
             if t != 0 and (wqe != 1 or sync != 1):
                 chk.violation("full batch: epoll_pwait called with timeout %d (the loop may block) while %s"
